@@ -491,6 +491,7 @@ type Contract struct {
 	Line      int
 	Opts      map[string]string
 	IsTrustedFile bool
+	implOf  *Contract         // merged implementer contract: the interface contract it refines
 	Aliases map[string]string // extra name -> canonical receiver/parameter/result name
 }
 
@@ -867,8 +868,25 @@ func ParseSpecFile(path, pkg string, isGo, trusted bool) (*SpecFile, error) {
 				return nil, fail(i, "call clause needs 'callee#n: assert expr'")
 			}
 			body := strings.TrimSpace(parts[1])
+			if strings.HasPrefix(body, "ghost ") {
+				ga := strings.SplitN(strings.TrimPrefix(body, "ghost "), ":=", 2)
+				if len(ga) != 2 {
+					return nil, fail(i, "call clause: ghost loc := expr")
+				}
+				lhs, err := ParseExpr(ga[0])
+				if err != nil {
+					return nil, fail(i, "%v", err)
+				}
+				rhs, err := ParseExpr(ga[1])
+				if err != nil {
+					return nil, fail(i, "%v", err)
+				}
+				k := strings.TrimSpace(parts[0])
+				cur.Asserts[k] = append(cur.Asserts[k], &Clause{Kind: "ghost", LHS: lhs, E: rhs, Text: body})
+				continue
+			}
 			if !strings.HasPrefix(body, "assert") {
-				return nil, fail(i, "only 'assert' supported in call clauses")
+				return nil, fail(i, "only 'assert' or 'ghost' supported in call clauses")
 			}
 			tags, b2 := parseTagsPrefix(strings.TrimPrefix(body, "assert"))
 			e, err := ParseExpr(b2)
